@@ -75,6 +75,14 @@ def jobs(prop, tier, seed):
                 else:
                     b = dict(depth=3, width=3, strlen=3, budget=0)
                     budget_s = 120
+                if variant == "datum" and any(
+                    x.k == "ann" and x.a[0].k in ("set", "fset") and {"min_items", "max_items"} & set(dict(x.opt("c") or ()))
+                    for x in walk(spec)
+                ):
+                    # an item-count constraint on a set: an array with duplicates is accepted on its
+                    # raw count and collapses (outside the bijective fragment: no datum is the image of
+                    # a value); duplicates at set positions are assumed away
+                    b = dict(b, distinct_sets=True)
                 out.append(dict(harness="C05", variant=variant, pool="ser", pid=pid, opts=o, bounds=b, budget_s=budget_s))
     # discriminated unions (value direction: the references of the datum direction do not model them)
     for pid in pools.ids("union", tier):
